@@ -57,6 +57,7 @@ type GenomeCfg struct {
 	ModestWeight bool
 	TraitBase1   bool // trait ids start at 1
 	SingleOutMod bool // modules have exactly one output (required to activate multiply/max/min modules)
+	SensorsFirst bool // never place a sensor behind a neuron in the node list
 }
 
 // genGenomeSpec is G-direct: a hand-built well-formed genome.
@@ -122,8 +123,19 @@ func drawGenomeSpec(t *rapid.T, cfg GenomeCfg) GenomeSpec {
 		pos := rapid.IntRange(0, len(neuronRoles)).Draw(t, "hidden pos")
 		neuronRoles = append(neuronRoles[:pos], append([]int{roleHidden}, neuronRoles[pos:]...)...)
 	}
+	if !cfg.SensorsFirst && rapid.IntRange(0, 5).Draw(t, "late sensor") == 0 {
+		// a sensor whose id lies above a neuron's (hand-built genomes may number their nodes like that: add-link has an
+		// explicit guard for sensors that do not lead the node list)
+		pos := rapid.IntRange(1, len(neuronRoles)).Draw(t, "late sensor pos")
+		late := rapid.SampledFrom([]int{roleInput, roleInput, roleBias}).Draw(t, "late sensor role")
+		neuronRoles = append(neuronRoles[:pos], append([]int{late}, neuronRoles[pos:]...)...)
+	}
 	for _, r := range neuronRoles {
-		s.Nodes = append(s.Nodes, NodeSpec{Id: id, Role: r, Act: rapid.SampledFrom(scalarActs).Draw(t, "act"), Trait: drawTrait("node trait")})
+		act := rapid.SampledFrom(scalarActs).Draw(t, "act")
+		if isSensorRole(r) {
+			act = 17
+		}
+		s.Nodes = append(s.Nodes, NodeSpec{Id: id, Role: r, Act: act, Trait: drawTrait("node trait")})
 		id += rapid.IntRange(1, 3).Draw(t, "id gap")
 	}
 	// genes: random set of (in, out, recurrent) triples, out never a sensor
